@@ -38,6 +38,9 @@ CHECKS = {
  "C06": dict(cat="exploration", ref="DESIGN.md §6 C06",
    technique="deterministic simulation with fault injection: spectators with seeded tick rates, pauses and catch-up settings behind lossy/reordering links; oracle = host's confirmed timeline per frame, catch-up rule, error justification, twin run without spectators",
    text="Hosts of 1-3 peers with 1-2 spectators whose tick rate is 0.25x-4x the host's, that pause for up to 3 s, with every max_frames_behind/catchup_speed setting, behind links that lose, duplicate and reorder packets; in some runs the host's other player dies. The n-th frame a spectator advances must carry the host's confirmed inputs for frame n (Disconnected exactly where the host says so), without gap or repeat, never beyond the host's confirmed frame; more than one frame per call only under the catch-up rule; PredictionThreshold only with nothing buffered; SpectatorTooFarBehind only when the host has delivered frame n+60 or later. Twin run without the spectators: the players' sealed timelines are identical."),
+ "C08": dict(cat="fault_enumeration", ref="DESIGN.md §6 C08",
+   technique="deterministic simulation with fault injection: forged/corrupted datagrams injected at seeded instants into live simulated sessions (twin run without them must agree) plus simulator-executed enumeration of every payload byte string up to 2 (quick) / 3 (thorough) bytes and seeded structure-aware mutations through the real decoder under a panic trap and counting allocator",
+   text="The fault is a forged packet. Enumerated part: every byte string up to 3 bytes (thorough; up to 2 plus sampled 3-byte chunks in quick) and millions of structure-aware mutations of real payloads are decoded by the real codec; a panic, an abort (detected in a child process) or an allocation above 16 MiB is a violation. Live part: 10-60 forged datagrams per run (wrong number of statuses, negative start frame, garbage / enumerated / bit-flipped / truncated / wrong-size / double-size payloads on replayed real Input packets, every message kind with a wrong magic, everything from unknown addresses, raw garbage) are injected at seeded instants from the first handshake packet on, also around a peer's death; the session must not panic, and the twin run without the injections must show the same sealed timeline, the same connection events and the same progress."),
 }
 NOT_YET = "not claimed at this commit: the check for this property is still under construction (see DESIGN.md §6 for the planned check)"
 NA = {
